@@ -189,12 +189,15 @@ def rule_b(ctx, ix, hub):
             why = 'the flush iterates %s directly and empties the queue only afterwards' % unparse(it)
     else:
         # while self._queue: msg = self._queue.pop(0); self.broadcast(msg)
-        pops = [c for c in calls_in(lp) if call_name(c) in ('pop', 'popleft') and _mentions_field(c.func, s, '_queue')]
-        detached = bool(pops)
-        why = 'messages are not removed from the queue before they are delivered'
+        # while self._queue: self.broadcast(self._queue.pop(0)) - each message leaves the queue before it is delivered, but the
+        # rest stays in the SHARED queue while handlers run with the pause depth already at 0: a handler that opens and closes
+        # a delay block of its own flushes the remaining top-level messages from inside the current delivery, so the listeners
+        # served after that handler see later messages before the current one
+        detached = False
+        why = 'the flush takes the messages one by one from the shared queue, which handlers (through their own delay blocks) flush again'
     ctx.ob(R, f.construct, 'the flush delivers from a detached snapshot; the shared queue is emptied first', detached,
            detail='Hub.delay_callbacks: %s - a handler that opens a delay block (or broadcasts) during the flush re-delivers '
-                  'the same messages (unbounded recursion)' % why, where=where(f, lp))
+                  'the same messages or delivers the remaining ones out of order, nested in the current delivery' % why, where=where(f, lp))
 
 
 def rule_c(ctx, ix, hub):
